@@ -182,6 +182,23 @@ impl PCheck for C09 {
                 return v;
             }
         }
+        // find_iter(t) is find_from(t, 0) and find(t) is its first element
+        if start == 0 {
+            let r = engine::guarded(FUEL, || {
+                let a: Vec<EMatch> = p.re.find_iter(hay).take(engine::MAX_MATCHES).map(|m| EMatch::from(&m)).collect();
+                let b: Vec<EMatch> = p.re.find_from(hay, 0).take(engine::MAX_MATCHES).map(|m| EMatch::from(&m)).collect();
+                let c = p.re.find(hay).map(|m| EMatch::from(&m));
+                (a, b, c)
+            });
+            if let Guarded::Ok((a, b, c)) = r {
+                if let Some(r) = rep.as_deref_mut() {
+                    r.inc("find_iter_vs_find_from_comparisons");
+                }
+                if a != b || c.as_ref() != b.first() {
+                    return Verdict::Violated { property: "C09", what: "find_iter / find differ from find_from(text, 0)".into(), observed: format!("find_iter: {} | find: {}", engine::show_matches(&a), show_opt(&c)), expected: format!("find_from(0): {}", engine::show_matches(&b)) };
+                }
+            }
+        }
         // The whole sequence against the reference model (text before `start` stays visible).
         let mut nontrivial = false;
         if let (Some(pat), true) = (&p.pat, start <= hay.len()) {
